@@ -29,27 +29,17 @@ theorem G01_mremapRequest (ms sz : BitVec 64) (hm : ms.toNat < 2 ^ 62) (hs : sz.
     (Funcs.mremapRequest (f_mmapSize := ms) (f_size := sz)).map BitVec.toNat =
       if ms.toNat ≥ sz.toNat then none
       else some (MMapFile.mremap ⟨sz.toNat, ms.toNat⟩).mmapSize := by
+  -- written against the MEANING of the generated term, not its shape: every `if` of both sides is
+  -- split, signed comparisons become comparisons of values, and linear arithmetic closes each case
+  -- (so a rewrite of the source that swaps branches, operands or comparison directions still checks)
   unfold Funcs.mremapRequest MMapFile.mremap initialMmap
-  simp only [sle_toNat sz ms (by omega) (by omega), decide_eq_true_eq, ge_iff_le]
-  by_cases h0 : sz.toNat ≤ ms.toNat
-  · simp only [h0, if_true, Option.map_none]
-  · simp only [h0, if_false, Option.map_some]
-    by_cases hz : ms = 0#64
-    · subst hz
-      simp only [if_true, BitVec.toNat_ofNat, Nat.zero_mod]
-      rw [slt_toNat _ _ (by decide) (by omega)]
-      by_cases hlt : (1073741824#64).toNat < sz.toNat
-      · simp only [hlt, decide_true, if_true]
-        simp only [BitVec.toNat_ofNat] at hlt
-        congr 1; omega
-      · simp only [hlt, decide_false, Bool.false_eq_true, if_false]
-        simp only [BitVec.toNat_ofNat] at hlt ⊢
-        congr 1; omega
-    · have hz' : ms.toNat ≠ 0 := by
-        intro h; apply hz; apply BitVec.eq_of_toNat_eq; simpa using h
-      simp only [hz, hz', if_false]
-      congr 1
-      bv_omega
+  simp only [BitVec.slt, BitVec.sle, BitVec.toInt_eq_toNat_cond, decide_eq_true_eq, ge_iff_le]
+  repeat' split
+  all_goals
+    simp only [Option.map_some, Option.map_none, Option.some.injEq, reduceCtorEq, ne_eq] at *
+  all_goals first
+    | rfl
+    | bv_omega
 
 /-- What the model's mapping size is after `mremap`, read off the request: the old mapping when
 nothing was requested. -/
